@@ -155,4 +155,4 @@ def run(desc, ctx):
             raise Violation("decode:solutions-differ-from-models", {"decoded": got, "expected": expect})
 
 
-SUBS = [Sub("translate", run, strategy=lambda tier: cpmodel.model(for_tv=True), quick=2000, thorough=12000, workers_quick=4)]
+SUBS = [Sub("translate", run, strategy=lambda tier: cpmodel.model(for_tv=True), quick=3000, thorough=12000, workers_quick=6)]
